@@ -2,18 +2,27 @@
    record, history and fuel.
 
    T1  every batch item is completed at most once (at most one [EvItemDone h _] per h);
-   T2  the scheduler flushes (emits EvBefore) only from a configuration in mode MAfterExec whose top
-       frame is [FWait root] with [root] NOT computed - step level for every configuration, run level
-       with the index of the emitting step; nested synchronous calls are covered because every nested
-       wait has its own FWait frame;
+   T2  the scheduler flushes (emits EvBefore / EvAfter) only from a configuration in mode MAfterExec
+       whose top frame is [FWait root] with [root] NOT computed - step level for every configuration,
+       run level with the index of the emitting step; nested synchronous calls are covered because
+       every nested wait has its own FWait frame;
    T3  the batch picked by [select] is pending and non-empty, hence in the trace every EvBefore is
        immediately followed by the EvFlush of the same batch with a non-empty item list;
-   T4  bracket discipline: the chronological trace is a concatenation of plain events (anything but
-       EvBefore / EvAfter) and blocks  EvBefore k i; EvFlush k i items; EvItemDone*; EvAfter k i.
+   T4  bracket discipline: the chronological trace is a concatenation ([blocks]) of tame events
+       (no EvBefore / EvAfter / EvFlush / EvItemDone), unbracketed flushes forced by item.value()
+       (EvFlush k i items; dones) and scheduler flushes (EvBefore k i; EvFlush k i items; dones;
+       EvAfter k i) where [served items dones]: dones are completions of items of the batch only, and
+       every item of the batch has one;
+   T5  hence (with T1) every item of a flushed batch is completed exactly once in the whole trace, by
+       that flush; every EvItemDone lies in a flush of a batch containing the item; EvBefore k i and
+       EvAfter k i occur equally often and at most once.
 
-   Scheme as in MachineTrace.v / MachineSteps.v: a relation [mild s s'] for all helpers (only plain
+   Scheme as in MachineTrace.v / MachineSteps.v: a relation [mild s s'] for all helpers (only tame
    events, heap ids stay below the counter, every EvItemDone h turns h from uncomputed to computed),
-   the relation [ok] that additionally allows whole blocks, the invariant [Inv], Inv_step, Inv_run... *)
+   [keep s s'] (batch table and item entries untouched) for the heap invariant [BI] (every member of a
+   batch is a heap entry recording that batch, without outcome while the batch is pending), [fx] for
+   what a flush does to the heap, the relation [ok] that allows whole blocks, the invariant [Inv],
+   Inv_step, Inv_run, ... *)
 From Asynq Require Import Machine proofs.ProgProofs proofs.MachineFrame proofs.MachineC05 proofs.MachineC08
   proofs.MachineTrace.
 
@@ -382,6 +391,409 @@ Qed.
 Lemma mild_schedule_batch k s : mild s (schedule_batch k s).
 Proof. unfold schedule_batch. destruct (b_done _); [apply mild_refl|]. destruct (existsb _ _); mm. Qed.
 
+(* ------------------------------------------------------------------ batch items in the heap *)
+Definition is_itemk (f : fut) : Prop := match f_kind f with KItem _ _ _ _ => True | _ => False end.
+
+(* every member of a batch is a heap entry recording that batch, without outcome while the batch is
+   pending *)
+Definition BI (s : st) : Prop :=
+  forall k h, In h (b_items (get_batch k s)) ->
+    exists out key a, get h s = Some (mkFut out (KItem (fst k) (snd k) key a)) /\
+                      (b_done (get_batch k s) = false -> out = None).
+
+(* helpers that leave the batch table and all item entries alone *)
+Definition keep (s s' : st) : Prop :=
+  batches s' = batches s /\ forall h f, get h s = Some f -> is_itemk f -> get h s' = Some f.
+
+Lemma keep_refl s : keep s s. Proof. split; auto. Qed.
+Lemma keep_trans a b c : keep a b -> keep b c -> keep a c.
+Proof. intros [A1 A2] [B1 B2]. split; [congruence|]. intros h f G I. apply B2; auto. Qed.
+Lemma keep_view s s' : heap s' = heap s -> batches s' = batches s -> keep s s'.
+Proof. intros Hh Hb. split; [exact Hb|]. intros h f G _. unfold get in *. rewrite Hh. exact G. Qed.
+
+Lemma keep_put h f' s : (forall f0, get h s = Some f0 -> ~ is_itemk f0) -> keep s (put h f' s).
+Proof.
+  intros N. split; [reflexivity|]. intros h0 f G I. rewrite get_put. destruct (fid_eqb h0 h) eqn:E; [|exact G].
+  apply fid_eqb_eq in E. subst h0. destruct (N f G I).
+Qed.
+
+Lemma get_task_kind t s tk : get_task t s = Some tk -> forall f0, get t s = Some f0 -> ~ is_itemk f0.
+Proof.
+  unfold get_task. intros H f0 G. rewrite G in H. unfold is_itemk. destruct f0 as [out [tk0|kind idx key a|o|]]; cbn; auto; discriminate.
+Qed.
+
+Lemma keep_set_task t tk0 tk s : get_task t s = Some tk0 -> keep s (set_task t tk s).
+Proof.
+  intros G. unfold set_task. destruct (get t s) as [f|] eqn:E; [|apply keep_refl].
+  apply keep_put. intros f0 E0. rewrite E in E0. apply (get_task_kind t s tk0 G). congruence.
+Qed.
+
+Lemma keep_set_task' t out tk0 tk s : get t s = Some (mkFut out (KTask tk0)) -> keep s (set_task t tk s).
+Proof. intros G. apply (keep_set_task t tk0). unfold get_task. rewrite G. reflexivity. Qed.
+
+Lemma keep_put_task t tk0 f' s : get_task t s = Some tk0 -> keep s (put t f' s).
+Proof. intros G. apply keep_put. exact (get_task_kind t s tk0 G). Qed.
+
+Lemma keep_put_lazy x out o f' s : get x s = Some (mkFut out (KLazy o)) -> keep s (put x f' s).
+Proof. intros G. apply keep_put. intros f0 G0. rewrite G in G0. inversion G0; subst. cbn. auto. Qed.
+
+Lemma keep_emit e s : keep s (emit e s). Proof. apply keep_view; reflexivity. Qed.
+Lemma keep_var_set v x s : keep s (var_set v x s). Proof. apply keep_view; reflexivity. Qed.
+Lemma keep_ci_put k c s : keep s (ci_put k c s). Proof. apply keep_view; reflexivity. Qed.
+Lemma keep_with_sb s x : keep s (with_sb s x). Proof. apply keep_view; reflexivity. Qed.
+Lemma keep_with_oracle s x : keep s (with_oracle s x). Proof. apply keep_view; reflexivity. Qed.
+Lemma keep_with_tasks s x : keep s (with_tasks s x). Proof. apply keep_view; reflexivity. Qed.
+Lemma keep_with_active s x : keep s (with_active s x). Proof. apply keep_view; reflexivity. Qed.
+Lemma keep_with_cur s x : keep s (with_cur s x). Proof. apply keep_view; reflexivity. Qed.
+Lemma keep_pop_task s : keep s (pop_task s). Proof. apply keep_view; reflexivity. Qed.
+Lemma keep_reset_sched s : keep s (reset_sched s). Proof. apply keep_view; reflexivity. Qed.
+
+Ltac kstep :=
+  match goal with
+  | |- keep ?s ?s => apply keep_refl
+  | |- keep _ (emit _ _) => eapply keep_trans; [|apply keep_emit]
+  | |- keep _ (var_set _ _ _) => eapply keep_trans; [|apply keep_var_set]
+  | |- keep _ (ci_put _ _ _) => eapply keep_trans; [|apply keep_ci_put]
+  | |- keep _ (with_sb _ _) => eapply keep_trans; [|apply keep_with_sb]
+  | |- keep _ (with_oracle _ _) => eapply keep_trans; [|apply keep_with_oracle]
+  | |- keep _ (with_tasks _ _) => eapply keep_trans; [|apply keep_with_tasks]
+  | |- keep _ (with_active _ _) => eapply keep_trans; [|apply keep_with_active]
+  | |- keep _ (with_cur _ _) => eapply keep_trans; [|apply keep_with_cur]
+  | |- keep _ (pop_task _) => eapply keep_trans; [|apply keep_pop_task]
+  | |- keep _ (reset_sched _) => eapply keep_trans; [|apply keep_reset_sched]
+  | |- keep _ (set_task _ _ _) =>
+      eapply keep_trans; [|first [eapply keep_set_task; eassumption | eapply keep_set_task'; eassumption]]
+  end.
+Ltac kk := repeat kstep.
+
+Lemma keep_enter_ctx t c s : keep s (enter_ctx t c s).
+Proof. unfold enter_ctx. destruct (get_task t s) eqn:G; destruct c; kk. Qed.
+Lemma keep_pause_plain t c s : keep s (pause_plain t c s).
+Proof. destruct c; unfold pause_plain; kk. Qed.
+Lemma keep_exit_ctx t c s : keep s (exit_ctx t c s).
+Proof. unfold exit_ctx. eapply keep_trans; [|apply keep_pause_plain]. destruct (get_task t s) eqn:G; kk. Qed.
+
+Lemma keep_fold {X} (f : st -> X -> st) l : (forall s x, keep s (f s x)) -> forall s, keep s (fold_left f l s).
+Proof. intros H. induction l as [|x l IH]; intros s; cbn; [apply keep_refl|]. eapply keep_trans; [apply H|apply IH]. Qed.
+
+Lemma keep_complete_task t o s : keep s (complete_task t o s).
+Proof.
+  unfold complete_task. destruct (get_task t s) as [tk|]; [|apply keep_refl].
+  assert (H : keep s (match tk_gen tk with
+                      | Some _ => fold_left (fun s c => exit_ctx t c s) (rev (tk_ctxs tk)) s
+                      | None => s end)).
+  { destruct (tk_gen tk); [|apply keep_refl]. apply keep_fold. intros. apply keep_exit_ctx. }
+  match goal with |- keep s (match get_task t ?x with _ => _ end) => set (s1 := x) in * end.
+  destruct (get_task t s1) as [tk1|] eqn:G1; [|exact H]. eapply keep_trans; [exact H|].
+  kstep. apply (keep_put_task t tk1). exact G1.
+Qed.
+
+Lemma keep_accept_error t e s : keep s (accept_error t e s).
+Proof. unfold accept_error. destruct (computed t s); [apply keep_refl|apply keep_complete_task]. Qed.
+
+Lemma keep_resume1 t c s : keep s (fst (resume1 t c s)).
+Proof. unfold resume1. destruct c as [cid f|cid|cid var v]; [destruct f| |]; cbn [fst]; t_regs; cbn [fst]; kk. Qed.
+Lemma keep_pause1 t c s : keep s (fst (pause1 t c s)).
+Proof. unfold pause1. destruct c as [cid f|cid|cid var v]; [destruct f| |]; cbn [fst]; t_regs; cbn [fst]; kk. Qed.
+
+Lemma keep_fold_pair {X E} (f : st * E -> X -> st * E) l :
+  (forall a x, keep (fst a) (fst (f a x))) -> forall a, keep (fst a) (fst (fold_left f l a)).
+Proof. intros H. induction l as [|x l IH]; intros a; cbn; [apply keep_refl|]. eapply keep_trans; [apply H|apply IH]. Qed.
+
+Lemma keep_resume_contexts t s : keep s (resume_contexts t s).
+Proof.
+  unfold resume_contexts. destruct (get_task t s) as [tk|] eqn:G; [|apply keep_refl].
+  destruct (tk_cact tk); [apply keep_refl|].
+  match goal with |- context [fold_left ?f ?l ?a] =>
+    assert (H2 : keep s (fst (fold_left f l a))) end.
+  { match goal with |- keep s (fst (fold_left ?f ?l (?s0, ?e))) =>
+      apply (keep_trans s s0); [apply (keep_set_task t tk); exact G | apply (keep_fold_pair f l) with (a := (s0, e))] end.
+    intros [s0 e0] c. cbn [fst]. pose proof (keep_resume1 t c s0) as Rr. destruct (resume1 t c s0). exact Rr. }
+  match goal with |- context [fold_left ?f ?l ?a] => destruct (fold_left f l a) as [s1 [e|]] end;
+    cbn [fst] in H2; [eapply keep_trans; [exact H2|apply keep_accept_error]|exact H2].
+Qed.
+
+Lemma keep_pause_contexts t s : keep s (pause_contexts t s).
+Proof.
+  unfold pause_contexts. destruct (get_task t s) as [tk|] eqn:G; [|apply keep_refl].
+  destruct (negb (tk_cact tk)); [apply keep_refl|].
+  match goal with |- context [fold_left ?f ?l ?a] =>
+    assert (H2 : keep s (fst (fold_left f l a))) end.
+  { match goal with |- keep s (fst (fold_left ?f ?l (?s0, ?e))) =>
+      apply (keep_trans s s0); [apply (keep_set_task t tk); exact G | apply (keep_fold_pair f l) with (a := (s0, e))] end.
+    intros [s0 e0] c. cbn [fst]. pose proof (keep_pause1 t c s0) as Rr. destruct (pause1 t c s0). exact Rr. }
+  match goal with |- context [fold_left ?f ?l ?a] => destruct (fold_left f l a) as [s1 [e|]] end;
+    cbn [fst] in H2; [eapply keep_trans; [exact H2|apply keep_accept_error]|exact H2].
+Qed.
+
+Lemma keep_select P s : keep s (snd (select P s)).
+Proof. destruct (select_batches P s) as [Hb Hh]. apply keep_view; assumption. Qed.
+
+Lemma keep_schedule_batch k s : keep s (schedule_batch k s).
+Proof. unfold schedule_batch. destruct (b_done _); [apply keep_refl|]. destruct (existsb _ _); kk. Qed.
+
+Lemma BI_keep s s' : BI s -> keep s s' -> BI s'.
+Proof.
+  intros B [Kb Kh] k h Hin. unfold get_batch in *. rewrite Kb in *. destruct (B k h Hin) as (out & key & a & G & Hd).
+  exists out, key, a. split; [|exact Hd]. apply Kh; [exact G|]. cbn. exact I.
+Qed.
+
+(* creating a future: the fresh id is in no batch; a new item joins the batch it records *)
+Lemma BI_fresh s h : dom s -> BI s -> get h s = None -> forall k, ~ In h (b_items (get_batch k s)).
+Proof. intros D B N k Hin. destruct (B k h Hin) as (out & key & a & G & _). congruence. Qed.
+
+Lemma fresh_none s : dom s -> get [top_next s] s = None.
+Proof.
+  intros D. destruct (get [top_next s] s) as [x|] eqn:E; [|reflexivity].
+  destruct (D [top_next s]) as (n & En & Hn); [rewrite E; discriminate|]. inversion En. lia.
+Qed.
+
+Lemma BI_alloc_put s f : dom s -> BI s -> BI (put [top_next s] f (with_top_next s (top_next s + 1))).
+Proof.
+  intros D B k h Hin. change (get_batch k (put [top_next s] f (with_top_next s (top_next s + 1)))) with (get_batch k s) in *.
+  destruct (B k h Hin) as (out & key & a & G & Hd). exists out, key, a. split; [|exact Hd].
+  rewrite get_put. destruct (fid_eqb h [top_next s]) eqn:E; [|exact G].
+  apply fid_eqb_eq in E. subst h. rewrite (fresh_none s D) in G. discriminate.
+Qed.
+
+Lemma BI_create p f s : dom s -> BI s -> BI (snd (create p f s)).
+Proof.
+  intros D B. unfold create, alloc. cbn zeta. destruct f; cbn [snd]; try (apply BI_alloc_put; assumption).
+  set (s0 := with_top_next s (top_next s + 1)). set (h0 := [top_next s]).
+  set (k0 := (kind, cur_idx kind s0)).
+  pose proof (BI_alloc_put s (mkFut None (KItem kind (cur_idx kind s0) key a)) D B) as B1.
+  fold s0 h0 in B1. set (s1 := put h0 (mkFut None (KItem kind (cur_idx kind s0) key a)) s0) in *.
+  change (get_batch k0 s0) with (get_batch k0 s1).
+  intros k h Hin. change (get h (put_batch k0 (mkB (b_items (get_batch k0 s1) ++ [h0]) (b_done (get_batch k0 s1))) s1)) with (get h s1).
+  destruct (key_eqb k k0) eqn:E.
+  - apply key_eqb_eq in E. subst k. rewrite get_batch_put_same in *. cbn [b_items b_done] in *.
+    apply in_app_or in Hin as [Hin|[<-|[]]]; [exact (B1 k0 h Hin)|].
+    exists None, key, a. split; [|reflexivity]. unfold s1. rewrite get_put_same. reflexivity.
+  - assert (N : k <> k0) by (intros ->; rewrite key_eqb_refl in E; discriminate).
+    rewrite get_batch_put_other in * by exact N. exact (B1 k h Hin).
+Qed.
+
+Definition DB (s : st) : Prop := dom s /\ BI s.
+
+Lemma DB_mild_keep s s' : DB s -> mild s s' -> keep s s' -> DB s'.
+Proof. intros [D B] (evs & _ & _ & G) K. destruct (G D) as [D' _]. split; [exact D'|exact (BI_keep s s' B K)]. Qed.
+
+Lemma DB_create p f s : DB s -> DB (snd (create p f s)).
+Proof.
+  intros [D B]. split; [|apply BI_create; assumption].
+  destruct (mild_create p f s) as (evs & _ & _ & G). exact (proj1 (G D)).
+Qed.
+
+Lemma inst_pres (R : st -> Prop) : (forall p f s, R s -> R (snd (create p f s))) ->
+  forall p y s, R s -> R (snd (inst p y s)).
+Proof.
+  intros HC p y. induction y as [| a | l IH | l IH | l IH] using ystruct_ind2; intros s.
+  - auto.
+  - destruct a as [f|h|]; simpl; auto.
+    pose proof (HC p f s) as H. destruct (create p f s). exact H.
+  - simpl. match goal with |- context [(?g l s)] => set (go := g) end.
+    assert (H : forall s, R s -> R (snd (go l s))).
+    { clear s. induction IH as [|x l Hx Hl IHl]; intros s Hs; [exact Hs|]. simpl.
+      specialize (Hx s Hs). destruct (inst p x s) as [x' s1]. cbn [snd] in Hx.
+      specialize (IHl s1 Hx). destruct (go l s1) as [l'' s2]. cbn [snd] in *. exact IHl. }
+    specialize (H s). destruct (go l s). exact H.
+  - simpl. match goal with |- context [(?g l s)] => set (go := g) end.
+    assert (H : forall s, R s -> R (snd (go l s))).
+    { clear s. induction IH as [|x l Hx Hl IHl]; intros s Hs; [exact Hs|]. simpl.
+      specialize (Hx s Hs). destruct (inst p x s) as [x' s1]. cbn [snd] in Hx.
+      specialize (IHl s1 Hx). destruct (go l s1) as [l'' s2]. cbn [snd] in *. exact IHl. }
+    specialize (H s). destruct (go l s). exact H.
+  - simpl. match goal with |- context [(?g l s)] => set (go := g) end.
+    assert (H : forall s, R s -> R (snd (go l s))).
+    { clear s. induction IH as [|[k x] l Hx Hl IHl]; intros s Hs; [exact Hs|]. simpl. simpl in Hx.
+      specialize (Hx s Hs). destruct (inst p x s) as [x' s1]. cbn [snd] in Hx.
+      specialize (IHl s1 Hx). destruct (go l s1) as [l'' s2]. cbn [snd] in *. exact IHl. }
+    specialize (H s). destruct (go l s). exact H.
+Qed.
+
+Lemma DB_inst p y s : DB s -> DB (snd (inst p y s)).
+Proof. apply inst_pres. intros. apply DB_create. assumption. Qed.
+
+(* ------------------------------------------------------------------ what a flush does to the heap *)
+(* every entry is untouched, or it is one of [items], had no outcome, got the outcome o (same kind) and
+   EvItemDone h o was emitted *)
+Definition fx (items : list fid) (s s' : st) : Prop :=
+  batches s' = batches s /\
+  exists evs, trace s' = evs ++ trace s /\
+    forall h, get h s' = get h s \/
+              (In h items /\ exists f o, get h s = Some f /\ f_out f = None /\
+                                         get h s' = Some (mkFut (Some o) (f_kind f)) /\ In (EvItemDone h o) evs).
+
+Lemma fx_refl items s : fx items s s.
+Proof. split; [reflexivity|]. exists []. split; [reflexivity|]. intros h. left. reflexivity. Qed.
+
+Lemma fx_view items s s' : heap s' = heap s -> batches s' = batches s -> trace s' = trace s -> fx items s s'.
+Proof.
+  intros Hh Hb Ht. split; [exact Hb|]. exists []. split; [exact Ht|]. intros h. left. unfold get. rewrite Hh. reflexivity.
+Qed.
+
+Lemma fx_trans items a b c : fx items a b -> fx items b c -> fx items a c.
+Proof.
+  intros (A1 & ea & Ta & Ha) (B1 & eb & Tb & Hb). split; [congruence|]. exists (eb ++ ea).
+  split; [rewrite Tb, Ta, app_assoc; reflexivity|]. intros h.
+  destruct (Ha h) as [Ea|(Ia & fa & oa & Ga & Oa & Ga' & Ina)]; destruct (Hb h) as [Eb|(Ib & fb & ob & Gb & Ob & Gb' & Inb)].
+  - left. congruence.
+  - right. split; [exact Ib|]. exists fb, ob. rewrite <- Ea. split; [exact Gb|]. split; [exact Ob|]. split; [exact Gb'|].
+    apply in_or_app. left. exact Inb.
+  - right. split; [exact Ia|]. exists fa, oa. split; [exact Ga|]. split; [exact Oa|]. split; [congruence|].
+    apply in_or_app. right. exact Ina.
+  - rewrite Ga' in Gb. inversion Gb; subst fb. cbn in Ob. discriminate.
+Qed.
+
+Lemma fx_emit items e s : fx items s (emit e s).
+Proof.
+  split; [reflexivity|]. exists [e]. split; [reflexivity|]. intros h. left. reflexivity.
+Qed.
+
+Lemma fx_complete_item items h o s : In h items -> fx items s (complete_item h o s).
+Proof.
+  intros Hin. unfold complete_item. destruct (get h s) as [f|] eqn:G; [|apply fx_refl].
+  destruct (f_out f) eqn:O; [apply fx_refl|].
+  split; [reflexivity|]. exists [EvItemDone h o]. split; [reflexivity|]. intros h0.
+  change (get h0 (emit (EvItemDone h o) (put h (mkFut (Some o) (f_kind f)) s))) with (get h0 (put h (mkFut (Some o) (f_kind f)) s)).
+  rewrite get_put. destruct (fid_eqb h0 h) eqn:E; [|left; reflexivity].
+  apply fid_eqb_eq in E. subst h0. right. split; [exact Hin|]. exists f, o. split; [exact G|]. split; [exact O|].
+  split; [reflexivity|left; reflexivity].
+Qed.
+
+Lemma fx_flush_body all items : (forall h, In h items -> In h all) ->
+  forall i ra s, fx all s (fst (flush_body items i ra s)).
+Proof.
+  induction items as [|h rest IH]; intros Hsub i ra s; simpl.
+  - destruct ra as [[k e]|]; apply fx_refl.
+  - assert (Hh : In h all) by (apply Hsub; left; reflexivity).
+    assert (Hrest : forall h', In h' rest -> In h' all) by (intros h' Hi; apply Hsub; right; exact Hi).
+    destruct ra as [[k e]|].
+    + destruct (Z.eqb i k); [apply fx_refl|]. eapply fx_trans; [|apply IH; exact Hrest].
+      destruct (get h s) as [[o [ | kind idx key [v|e'|] | | ]]|]; try apply fx_refl; apply fx_complete_item; exact Hh.
+    + eapply fx_trans; [|apply IH; exact Hrest].
+      destruct (get h s) as [[o [ | kind idx key [v|e'|] | | ]]|]; try apply fx_refl; apply fx_complete_item; exact Hh.
+Qed.
+
+Lemma fx_fold all o items : (forall h, In h items -> In h all) ->
+  forall s, fx all s (fold_left (fun s h => complete_item h o s) items s).
+Proof.
+  induction items as [|h rest IH]; intros Hsub s; cbn [fold_left]; [apply fx_refl|].
+  eapply fx_trans; [apply fx_complete_item; apply Hsub; left; reflexivity|].
+  apply IH. intros h' Hi. apply Hsub. right. exact Hi.
+Qed.
+
+(* the state just before put_batch marks the batch done *)
+Lemma flush_batch_fx P k s : b_done (get_batch k s) = false ->
+  exists s3, fx (b_items (get_batch k s)) s s3 /\
+             flush_batch P k s = put_batch k (mkB (b_items (get_batch k s)) true) s3.
+Proof.
+  intros Hd. unfold flush_batch. rewrite Hd. set (items := b_items (get_batch k s)).
+  set (s0 := if Z.eqb (cur_idx (fst k) s) (snd k) then with_cur s (upd Z.eqb (fst k) (snd k + 1) (cur s)) else s).
+  assert (F0 : fx items s s0) by (unfold s0; destruct (Z.eqb _ _); [apply fx_view; reflexivity|apply fx_refl]).
+  set (s1 := emit (EvFlush (fst k) (snd k) items) s0).
+  pose proof (fx_flush_body items items (fun h H => H) 0 (ks_raise (kspec_of P (fst k))) s1) as F2.
+  destruct (flush_body items 0 (ks_raise (kspec_of P (fst k))) s1) as [s2 err]. cbn [fst] in F2.
+  set (fill := match err with Some e => Err e | None => Err E_NOTSET end).
+  pose proof (fx_fold items fill items (fun h H => H) s2) as F3.
+  set (s3 := fold_left (fun s h => complete_item h fill s) items s2) in *.
+  assert (F : fx items s s3).
+  { eapply fx_trans; [|exact F3]. eapply fx_trans; [|exact F2]. eapply fx_trans; [exact F0|apply fx_emit]. }
+  exists s3. split; [exact F|]. destruct F as [Fb _].
+  assert (E : get_batch k s3 = get_batch k s) by (unfold get_batch; rewrite Fb; reflexivity).
+  rewrite E. reflexivity.
+Qed.
+
+Lemma BI_flush_batch P k s : BI s -> BI (flush_batch P k s).
+Proof.
+  intros B. destruct (b_done (get_batch k s)) eqn:Hd; [rewrite (flush_done_is_noop P k s Hd); exact B|].
+  destruct (flush_batch_fx P k s Hd) as (s3 & (Fb & evs & T & Fh) & ->).
+  assert (GB : forall k', get_batch k' s3 = get_batch k' s) by (intros k'; unfold get_batch; rewrite Fb; reflexivity).
+  intros k' h Hin.
+  change (get h (put_batch k (mkB (b_items (get_batch k s)) true) s3)) with (get h s3).
+  destruct (key_eqb k' k) eqn:E.
+  - apply key_eqb_eq in E. subst k'. rewrite get_batch_put_same in *. cbn [b_items b_done] in *.
+    destruct (B k h Hin) as (out & key & a & G & _).
+    destruct (Fh h) as [Eh|(_ & f & o & Gf & _ & Gf' & _)].
+    + exists out, key, a. split; [congruence|discriminate].
+    + rewrite G in Gf. inversion Gf; subst f. cbn [f_kind] in Gf'. exists (Some o), key, a. split; [exact Gf'|discriminate].
+  - assert (N : k' <> k) by (intros ->; rewrite key_eqb_refl in E; discriminate).
+    rewrite get_batch_put_other in * by exact N. rewrite GB in *.
+    destruct (B k' h Hin) as (out & key & a & G & Hout).
+    destruct (Fh h) as [Eh|(Hk & f & o & Gf & _ & _ & _)].
+    + exists out, key, a. split; [congruence|exact Hout].
+    + destruct (B k h Hk) as (out2 & key2 & a2 & G2 & _). rewrite G in G2. inversion G2.
+      exfalso. apply N. destruct k, k'. cbn in *. congruence.
+Qed.
+
+(* a flush of a pending batch completes every one of its items: the event is emitted *)
+Lemma flush_batch_completes P k s : BI s -> b_done (get_batch k s) = false ->
+  forall evs, trace (flush_batch P k s) = evs ++ trace s ->
+  forall h, In h (b_items (get_batch k s)) -> exists o, In (EvItemDone h o) evs.
+Proof.
+  intros B Hd evs T h Hin. destruct (B k h Hin) as (out & key & a & G & Hout). specialize (Hout Hd). subst out.
+  destruct (flush_pending P k s Hd) as (_ & _ & Hc & _). cbn zeta in Hc.
+  assert (C : computed h (flush_batch P k s) = true) by (apply Hc; [exact Hin|congruence]).
+  destruct (flush_batch_fx P k s Hd) as (s3 & (Fb & evs' & T' & Fh) & E). rewrite E in C, T.
+  change (computed h (put_batch k (mkB (b_items (get_batch k s)) true) s3)) with (computed h s3) in C.
+  change (trace (put_batch k (mkB (b_items (get_batch k s)) true) s3)) with (trace s3) in T.
+  assert (evs = evs') by (apply (app_inv_tail (trace s)); rewrite <- T, <- T'; reflexivity). subst evs'.
+  destruct (Fh h) as [Eh|(_ & f & o & _ & _ & _ & Hev)].
+  - unfold computed in C. rewrite Eh, G in C. discriminate.
+  - exists o. exact Hev.
+Qed.
+
+Lemma BI_continue_with_batch P s : BI s -> BI (continue_with_batch P s).
+Proof.
+  intros B. unfold continue_with_batch. pose proof (keep_select P s) as K.
+  destruct (select P s) as [[k|] s1]; cbn [snd] in K; [|exact (BI_keep _ _ B K)].
+  apply (BI_keep (flush_batch P k (emit (EvBefore (fst k) (snd k)) (with_sb s1 (filter (fun k' => negb (key_eqb k' k)) (sb s1)))))); [|apply keep_emit].
+  apply BI_flush_batch. apply (BI_keep s); [exact B|]. eapply keep_trans; [exact K|]. kk.
+Qed.
+
+(* ------------------------------------------------------------------ BI along transitions *)
+Ltac destr_eq :=
+  repeat match goal with
+  | |- context [match ?x with _ => _ end] => destruct x eqn:?
+  | |- context [if ?x then _ else _] => destruct x eqn:?
+  end; cbn [c_st].
+
+Ltac kh :=
+  repeat match goal with
+  | |- keep ?s ?s => apply keep_refl
+  | |- keep _ _ => eassumption
+  | |- keep _ (emit _ _) => eapply keep_trans; [|apply keep_emit]
+  | |- keep _ (set_task _ _ _) =>
+      eapply keep_trans; [|first [eapply keep_set_task; eassumption | eapply keep_set_task'; eassumption]]
+  | |- keep _ (put _ _ _) => eapply keep_trans; [|eapply keep_put_lazy; eassumption]
+  | |- keep _ (pop_task _) => eapply keep_trans; [|apply keep_pop_task]
+  | |- keep _ (with_tasks _ _) => eapply keep_trans; [|apply keep_with_tasks]
+  | |- keep _ (with_active _ _) => eapply keep_trans; [|apply keep_with_active]
+  | |- keep _ (reset_sched _) => eapply keep_trans; [|apply keep_reset_sched]
+  | |- keep _ (resume_contexts _ _) => eapply keep_trans; [|apply keep_resume_contexts]
+  | |- keep _ (pause_contexts _ _) => eapply keep_trans; [|apply keep_pause_contexts]
+  | |- keep _ (complete_task _ _ _) => eapply keep_trans; [|apply keep_complete_task]
+  | |- keep _ (accept_error _ _ _) => eapply keep_trans; [|apply keep_accept_error]
+  | |- keep _ (enter_ctx _ _ _) => eapply keep_trans; [|apply keep_enter_ctx]
+  | |- keep _ (exit_ctx _ _ _) => eapply keep_trans; [|apply keep_exit_ctx]
+  | |- keep _ (schedule_batch _ _) => eapply keep_trans; [|apply keep_schedule_batch]
+  end.
+
+Theorem BI_step P c : dom (c_st c) -> BI (c_st c) -> BI (c_st (step P c)).
+Proof.
+  destruct c as [m fr s]. cbn [c_st]. intros D B.
+  assert (Q : forall s', keep s s' -> BI s') by (intros s'; apply BI_keep; exact B).
+  destruct m as [h| | | |t|t p| |o|e|o|]; cbn [step c_mode c_frames c_st];
+    try (destr_eq; first [exact B | apply BI_flush_batch; exact B | apply BI_continue_with_batch; exact B | (apply Q; kh)]; fail).
+  (* MRun *)
+  destruct p as [v|v|e|y k|f k|h k|cx k|cx k|var k|k]; cbn [c_st];
+    try (destr_eq; first [exact B | (apply Q; kh)]; fail).
+  - pose proof (DB_inst t y s (conj D B)) as [D1 B1]. destruct (inst t y s) as [y' s1]. cbn [snd] in D1, B1.
+    destruct (get_task t s1) as [tk|] eqn:G; cbn [c_st]; [|exact B1].
+    destruct (tk_deps tk ++ futs (extract y')); cbn [c_st]; (apply (BI_keep s1); [exact B1|]); kh.
+  - pose proof (BI_create t f s D B) as B1. destruct (create t f s) as [h s1]. cbn [snd c_st] in *. exact B1.
+Qed.
+
 (* ------------------------------------------------------------------ T3: what select picks *)
 Theorem select_nonempty_pending P s k s1 :
   select P s = (Some k, s1) -> b_items (get_batch k s) <> [] /\ b_done (get_batch k s) = false.
@@ -392,15 +804,25 @@ Proof.
 Qed.
 
 (* ------------------------------------------------------------------ blocks *)
+(* the completions [dones] of one flush of [items]: only items of the batch, and every one of them *)
+Definition served (items : list fid) (dones : list event) : Prop :=
+  Forall (done_in items) dones /\ forall h, In h items -> exists o, In (EvItemDone h o) dones.
+
+Lemma served_rev items dones : served items dones -> served items (rev dones).
+Proof.
+  intros [F C]. split; [apply Forall_rev; exact F|]. intros h Hin. destruct (C h Hin) as (o & Ho).
+  exists o. apply in_rev. rewrite rev_involutive. exact Ho.
+Qed.
+
 (* newest-first (the order of [trace s]) *)
 Inductive blocksR : list event -> Prop :=
 | blocksR_nil : blocksR []
 | blocksR_tame e tr : tame e -> blocksR tr -> blocksR (e :: tr)
 | blocksR_sync kind idx items dones tr :
-    Forall (done_in items) dones -> blocksR tr ->
+    served items dones -> blocksR tr ->
     blocksR (dones ++ EvFlush kind idx items :: tr)
 | blocksR_sched kind idx items dones tr :
-    items <> [] -> Forall (done_in items) dones -> blocksR tr ->
+    items <> [] -> served items dones -> blocksR tr ->
     blocksR (EvAfter kind idx :: dones ++ EvFlush kind idx items :: EvBefore kind idx :: tr).
 
 (* chronological (the order of [snd (run_case ...)]): tame events, flushes forced by a synchronous
@@ -409,10 +831,10 @@ Inductive blocks : list event -> Prop :=
 | blocks_nil : blocks []
 | blocks_tame e tr : tame e -> blocks tr -> blocks (e :: tr)
 | blocks_sync kind idx items dones tr :
-    Forall (done_in items) dones -> blocks tr ->
+    served items dones -> blocks tr ->
     blocks (EvFlush kind idx items :: dones ++ tr)
 | blocks_sched kind idx items dones tr :
-    items <> [] -> Forall (done_in items) dones -> blocks tr ->
+    items <> [] -> served items dones -> blocks tr ->
     blocks (EvBefore kind idx :: EvFlush kind idx items :: dones ++ EvAfter kind idx :: tr).
 
 Lemma blocksR_app a b : blocksR a -> blocksR b -> blocksR (a ++ b).
@@ -440,17 +862,29 @@ Proof.
   - cbn [rev]. apply blocks_app; [exact IH|]. apply blocks_tame; [exact He|constructor].
   - rewrite rev_app_distr. cbn [rev]. rewrite <- !app_assoc. cbn [app].
     apply blocks_app; [exact IH|]. rewrite <- (app_nil_r (rev dones)).
-    apply blocks_sync; [apply Forall_rev; exact Hd|constructor].
+    apply blocks_sync; [apply served_rev; exact Hd|constructor].
   - cbn [rev]. rewrite rev_app_distr. cbn [rev]. rewrite <- !app_assoc. cbn [app].
-    apply blocks_app; [exact IH|]. apply blocks_sched; [exact Hi|apply Forall_rev; exact Hd|constructor].
+    apply blocks_app; [exact IH|]. apply blocks_sched; [exact Hi|apply served_rev; exact Hd|constructor].
 Qed.
 
-Definition ok : st -> st -> Prop := ext blocksR.
+(* one transition: whole blocks (that every item is served needs the heap invariant BI) *)
+Definition ok (s s' : st) : Prop :=
+  exists evs, trace s' = evs ++ trace s /\ (BI s -> blocksR evs) /\ grows s s' evs.
 
 Lemma mild_ok s s' : mild s s' -> ok s s'.
-Proof. intros (evs & T & F & G). exists evs. split; [exact T|]. split; [apply blocksR_all_tame; exact F|exact G]. Qed.
+Proof. intros (evs & T & F & G). exists evs. split; [exact T|]. split; [intros _; apply blocksR_all_tame; exact F|exact G]. Qed.
 
 Lemma ok_refl s : ok s s. Proof. apply mild_ok, mild_refl. Qed.
+
+Lemma served_flush P k s dones :
+  BI s -> b_done (get_batch k s) = false ->
+  trace (flush_batch P k s) = (dones ++ [EvFlush (fst k) (snd k) (b_items (get_batch k s))]) ++ trace s ->
+  Forall (done_in (b_items (get_batch k s))) dones -> served (b_items (get_batch k s)) dones.
+Proof.
+  intros B Hd T F. split; [exact F|]. intros h Hin.
+  destruct (flush_batch_completes P k s B Hd _ T h Hin) as (o & Ho). exists o.
+  apply in_app_or in Ho as [Ho|[Ho|[]]]; [exact Ho|discriminate Ho].
+Qed.
 
 (* BatchBase.flush called outside the scheduler (item.value()): nothing, or one unbracketed block *)
 Lemma ok_flush_batch P k s : ok s (flush_batch P k s).
@@ -458,7 +892,7 @@ Proof.
   destruct (b_done (get_batch k s)) eqn:Hd; [rewrite (flush_done_is_noop P k s Hd); apply ok_refl|].
   destruct (flush_batch_ext P k s Hd) as (evs & T & (dones & -> & F) & G).
   exists (dones ++ [EvFlush (fst k) (snd k) (b_items (get_batch k s))]). split; [exact T|]. split; [|exact G].
-  apply blocksR_sync; [exact F|constructor].
+  intros B. apply blocksR_sync; [exact (served_flush P k s dones B Hd T F)|constructor].
 Qed.
 
 Lemma plain_flush_batch P k s :
@@ -491,7 +925,11 @@ Proof.
       with (EvAfter (fst k) (snd k) :: trace (flush_batch P k s3)).
     rewrite T4. change (trace s3) with (EvBefore (fst k) (snd k) :: trace s1). rewrite T1.
     cbn [app]. rewrite <- !app_assoc. reflexivity.
-  - apply blocksR_sched; [exact Hne|exact F|apply blocksR_all_tame; exact P1].
+  - intros B. apply blocksR_sched; [exact Hne| |apply blocksR_all_tame; exact P1].
+    assert (B3 : BI s3).
+    { apply (BI_keep s); [exact B|]. pose proof (keep_select P s) as K. rewrite Sel in K. cbn [snd] in K.
+      eapply keep_trans; [exact K|]. unfold s3, s2. kk. }
+    exact (served_flush P k s3 dones B3 Hd T4 F).
   - intros D. destruct (G1 D) as [D1 C1].
     assert (D3 : dom s3) by exact D1.
     destruct (G4 D3) as [D4 C4]. split; [exact D4|]. intros h. specialize (C1 h). specialize (C4 h).
@@ -526,12 +964,6 @@ Ltac mh :=
   | |- mild _ (exit_ctx _ _ _) => eapply mild_trans; [|apply mild_exit_ctx]
   | |- mild _ (schedule_batch _ _) => eapply mild_trans; [|apply mild_schedule_batch]
   end.
-
-Ltac destr_eq :=
-  repeat match goal with
-  | |- context [match ?x with _ => _ end] => destruct x eqn:?
-  | |- context [if ?x then _ else _] => destruct x eqn:?
-  end; cbn [c_st].
 
 (* the only transition that emits EvBefore / EvAfter: wait_for found its task still incomplete after
    _execute returned (scheduler.py 63-74) *)
@@ -656,20 +1088,22 @@ Qed.
 
 (* ------------------------------------------------------------------ the invariant *)
 Definition Inv (s : st) : Prop :=
-  dom s /\ blocksR (trace s) /\ forall h, (cnt h (trace s) <= b2n (computed h s))%nat.
+  dom s /\ BI s /\ blocksR (trace s) /\ forall h, (cnt h (trace s) <= b2n (computed h s))%nat.
 
-Lemma Inv_ok s s' : Inv s -> ok s s' -> Inv s'.
+Lemma Inv_ok s s' : Inv s -> ok s s' -> BI s' -> Inv s'.
 Proof.
-  intros (D & B & C) (evs & T & Be & G). destruct (G D) as [D' C']. split; [exact D'|]. split.
-  - rewrite T. apply blocksR_app; assumption.
+  intros (D & Bi & B & C) (evs & T & Be & G) Bi'. destruct (G D) as [D' C']. split; [exact D'|]. split; [exact Bi'|]. split.
+  - rewrite T. apply blocksR_app; [exact (Be Bi)|exact B].
   - intros h. rewrite T, cnt_app. specialize (C h). specialize (C' h). lia.
 Qed.
 
-Lemma Inv_mild s s' : Inv s -> mild s s' -> Inv s'.
+Lemma Inv_mild s s' : Inv s -> mild s s' -> BI s' -> Inv s'.
 Proof. intros HI M. exact (Inv_ok s s' HI (mild_ok s s' M)). Qed.
 
 Theorem Inv_step P c : Inv (c_st c) -> Inv (c_st (step P c)).
-Proof. intros HI. exact (Inv_ok _ _ HI (step_ok P c)). Qed.
+Proof.
+  intros HI. apply (Inv_ok _ _ HI (step_ok P c)). destruct HI as (D & Bi & _). exact (BI_step P c D Bi).
+Qed.
 
 Lemma Inv_run P n : forall c, Inv (c_st c) -> Inv (c_st (run P n c)).
 Proof.
@@ -679,18 +1113,22 @@ Qed.
 
 Lemma Inv_st0 P : Inv (st0 P).
 Proof.
-  split; [intros h Hh; cbn in Hh; congruence|]. split; [constructor|]. intros h. cbn. lia.
+  split; [intros h Hh; cbn in Hh; congruence|]. split; [intros k h []|]. split; [constructor|]. intros h. cbn. lia.
 Qed.
 
 Lemma Inv_run_root P fuel p s : Inv s -> Inv (snd (run_root P fuel p s)).
 Proof.
   intros HF. unfold run_root.
-  pose proof (mild_create [] (FTask p) s) as Qc. destruct (create [] (FTask p) s) as [h s1]. cbn [snd] in Qc.
-  assert (H1 : Inv s1) by (apply (Inv_mild s); auto).
+  pose proof (mild_create [] (FTask p) s) as Qc.
+  assert (Bc : BI (snd (create [] (FTask p) s))) by (destruct HF as (D & Bi & _); exact (BI_create [] (FTask p) s D Bi)).
+  destruct (create [] (FTask p) s) as [h s1]. cbn [snd] in Qc, Bc.
+  assert (H1 : Inv s1).
+  { apply (Inv_mild s); [exact HF|exact Qc|exact Bc]. }
   pose proof (Inv_run P fuel (mkC (MValue h) [FTop] s1) H1) as H2.
   set (c := run P fuel (mkC (MValue h) [FTop] s1)) in *.
   assert (H3 : Inv (emit (EvSched (Z.of_nat (length (tasks (c_st c)))) (Z.of_nat (length (sb (c_st c)))) (active (c_st c))) (c_st c))).
-  { apply (Inv_mild (c_st c)); [exact H2|]. apply mild_emit. exact I. }
+  { apply (Inv_mild (c_st c)); [exact H2|apply mild_emit; exact I|].
+    destruct H2 as (_ & Bi & _). apply (BI_keep (c_st c)); [exact Bi|apply keep_emit]. }
   destruct (c_mode c); exact H3.
 Qed.
 
@@ -716,7 +1154,7 @@ Qed.
 
 Theorem run_case_item_done_at_most_once P fuel ps h : (cnt h (snd (run_case P fuel ps)) <= 1)%nat.
 Proof.
-  destruct (Inv_run_case P fuel ps) as (s & -> & (_ & _ & C)). rewrite cnt_rev. specialize (C h).
+  destruct (Inv_run_case P fuel ps) as (s & -> & (_ & _ & _ & C)). rewrite cnt_rev. specialize (C h).
   destruct (computed h s); cbn in C; lia.
 Qed.
 
@@ -727,7 +1165,7 @@ Theorem run_item_done_at_most_once P n c h :
   (cnt h (trace (c_st (run P n c))) <= 1)%nat /\
   (forall o, In (EvItemDone h o) (trace (c_st (run P n c))) -> computed h (c_st (run P n c)) = true).
 Proof.
-  intros HI. destruct (Inv_run P n c HI) as (_ & _ & C). specialize (C h). split.
+  intros HI. destruct (Inv_run P n c HI) as (_ & _ & _ & C). specialize (C h). split.
   - destruct (computed h (c_st (run P n c))); cbn in C; lia.
   - intros o Hin. destruct (computed h (c_st (run P n c))); [reflexivity|]. cbn in C.
     assert (Hpos : (1 <= cnt h (trace (c_st (run P n c))))%nat).
@@ -739,11 +1177,11 @@ Qed.
 
 (* ------------------------------------------------------------------ T3 + T4 *)
 Theorem run_case_blocks P fuel ps : blocks (snd (run_case P fuel ps)).
-Proof. destruct (Inv_run_case P fuel ps) as (s & -> & (_ & B & _)). apply blocksR_rev. exact B. Qed.
+Proof. destruct (Inv_run_case P fuel ps) as (s & -> & (_ & _ & B & _)). apply blocksR_rev. exact B. Qed.
 
 (* the same for one run of the machine from any state satisfying the invariant *)
 Theorem run_blocks P n c : Inv (c_st c) -> blocks (rev (trace (c_st (run P n c)))).
-Proof. intros HI. destruct (Inv_run P n c HI) as (_ & B & _). apply blocksR_rev. exact B. Qed.
+Proof. intros HI. destruct (Inv_run P n c HI) as (_ & _ & B & _). apply blocksR_rev. exact B. Qed.
 
 Lemma app_eq_split {A} (a b : list A) x : forall c d,
   a ++ b = c ++ x :: d ->
@@ -766,7 +1204,7 @@ Proof. intros H. apply Forall_app in H as [Hl Hr]. inversion Hr; subst. auto. Qe
 Lemma blocks_before tr : blocks tr -> forall l1 l2 kind idx,
   tr = l1 ++ EvBefore kind idx :: l2 ->
   exists items dones l3, l2 = EvFlush kind idx items :: dones ++ EvAfter kind idx :: l3 /\
-                         items <> [] /\ Forall (done_in items) dones.
+                         items <> [] /\ served items dones.
 Proof.
   intros H. induction H as [|e tr He Ht IH|k0 i0 items dones tr Hd Ht IH|k0 i0 items dones tr Hi Hd Ht IH];
     intros l1 l2 kind idx E.
@@ -776,13 +1214,13 @@ Proof.
     + exact (IH l1 l2 kind idx Et).
   - destruct l1 as [|x l1]; cbn [app] in E; [discriminate E|]. injection E as Ex Et.
     destruct (app_eq_split _ _ _ _ _ Et) as [(a2 & -> & _)|(c' & -> & Hc)].
-    + destruct (done_in_mid _ _ _ _ Hd) as [Hx _]. destruct Hx.
+    + destruct (done_in_mid _ _ _ _ (proj1 Hd)) as [Hx _]. destruct Hx.
     + exact (IH c' l2 kind idx Hc).
   - destruct l1 as [|x l1]; cbn [app] in E; injection E as Ex Et.
     + inversion Ex; subst. exists items, dones, tr. auto.
     + destruct l1 as [|y l1]; cbn [app] in Et; [discriminate Et|]. injection Et as Ey Et.
       destruct (app_eq_split _ _ _ _ _ Et) as [(a2 & -> & _)|(c' & -> & Hc)].
-      * destruct (done_in_mid _ _ _ _ Hd) as [Hx _]. destruct Hx.
+      * destruct (done_in_mid _ _ _ _ (proj1 Hd)) as [Hx _]. destruct Hx.
       * destruct c' as [|z c']; cbn [app] in Hc; [discriminate Hc|]. injection Hc as Ez Hc.
         exact (IH c' l2 kind idx Hc).
 Qed.
@@ -791,7 +1229,7 @@ Qed.
 Lemma blocks_after tr : blocks tr -> forall l1 l2 kind idx,
   tr = l1 ++ EvAfter kind idx :: l2 ->
   exists items dones l0, l1 = l0 ++ EvBefore kind idx :: EvFlush kind idx items :: dones /\
-                         items <> [] /\ Forall (done_in items) dones.
+                         items <> [] /\ served items dones.
 Proof.
   intros H. induction H as [|e tr He Ht IH|k0 i0 items dones tr Hd Ht IH|k0 i0 items dones tr Hi Hd Ht IH];
     intros l1 l2 kind idx E.
@@ -802,13 +1240,13 @@ Proof.
       exists items, dones, (x :: l0). auto.
   - destruct l1 as [|x l1]; cbn [app] in E; [discriminate E|]. injection E as Ex Et.
     destruct (app_eq_split _ _ _ _ _ Et) as [(a2 & -> & _)|(c' & -> & Hc)].
-    + destruct (done_in_mid _ _ _ _ Hd) as [Hx _]. destruct Hx.
+    + destruct (done_in_mid _ _ _ _ (proj1 Hd)) as [Hx _]. destruct Hx.
     + destruct (IH c' l2 kind idx Hc) as (items' & dones' & l0 & -> & Hi' & Hd').
       exists items', dones', (x :: dones ++ l0). split; [|auto]. cbn [app]. rewrite <- app_assoc. reflexivity.
   - destruct l1 as [|x l1]; cbn [app] in E; [discriminate E|]. injection E as Ex Et.
     destruct l1 as [|y l1]; cbn [app] in Et; [discriminate Et|]. injection Et as Ey Et.
     destruct (app_eq_split _ _ _ _ _ Et) as [(a2 & -> & _)|(c' & -> & Hc)].
-    + destruct (done_in_mid _ _ _ _ Hd) as [Hx _]. destruct Hx.
+    + destruct (done_in_mid _ _ _ _ (proj1 Hd)) as [Hx _]. destruct Hx.
     + subst x y. destruct c' as [|z c']; cbn [app] in Hc; injection Hc as Ez Hc.
       * inversion Ez; subst. exists items, dones, []. rewrite app_nil_r. auto.
       * destruct (IH c' l2 kind idx Hc) as (items' & dones' & l0 & -> & Hi' & Hd').
@@ -832,31 +1270,84 @@ Proof.
       exists kind, idx, items, (x :: l0), dones. auto.
   - destruct l1 as [|x l1]; cbn [app] in E; [discriminate E|]. injection E as Ex Et. subst x.
     destruct (app_eq_split _ _ _ _ _ Et) as [(a2 & -> & _)|(c' & -> & Hc)].
-    + destruct (done_in_mid _ _ _ _ Hd) as [Hx Hl]. exists k0, i0, items, [], l1. auto.
+    + destruct (done_in_mid _ _ _ _ (proj1 Hd)) as [Hx Hl]. exists k0, i0, items, [], l1. auto.
     + destruct (IH c' l2 h o Hc) as (kind & idx & items' & l0 & dones' & -> & Hi' & Hd').
       exists kind, idx, items', (EvFlush k0 i0 items :: dones ++ l0), dones'. split; [|auto].
       cbn [app]. rewrite <- app_assoc. reflexivity.
   - destruct l1 as [|x l1]; cbn [app] in E; [discriminate E|]. injection E as Ex Et.
     destruct l1 as [|y l1]; cbn [app] in Et; [discriminate Et|]. injection Et as Ey Et. subst x y.
     destruct (app_eq_split _ _ _ _ _ Et) as [(a2 & -> & _)|(c' & -> & Hc)].
-    + destruct (done_in_mid _ _ _ _ Hd) as [Hx Hl]. exists k0, i0, items, [EvBefore k0 i0], l1. auto.
+    + destruct (done_in_mid _ _ _ _ (proj1 Hd)) as [Hx Hl]. exists k0, i0, items, [EvBefore k0 i0], l1. auto.
     + destruct c' as [|z c']; cbn [app] in Hc; injection Hc as Ez Hc; [discriminate Ez|]. subst z.
       destruct (IH c' l2 h o Hc) as (kind & idx & items' & l0 & dones' & -> & Hi' & Hd').
       exists kind, idx, items', (EvBefore k0 i0 :: EvFlush k0 i0 items :: dones ++ EvAfter k0 i0 :: l0), dones'.
       split; [|auto]. cbn [app]. rewrite <- app_assoc. reflexivity.
 Qed.
 
+(* every flush body (bracketed or not) is followed by the completions of exactly its items *)
+Lemma blocks_flush tr : blocks tr -> forall l1 l2 kind idx items,
+  tr = l1 ++ EvFlush kind idx items :: l2 ->
+  exists dones l3, l2 = dones ++ l3 /\ served items dones.
+Proof.
+  intros H. induction H as [|e tr He Ht IH|k0 i0 items0 dones tr Hd Ht IH|k0 i0 items0 dones tr Hi Hd Ht IH];
+    intros l1 l2 kind idx items E.
+  - destruct l1; discriminate.
+  - destruct l1 as [|x l1]; cbn [app] in E; injection E as Ex Et.
+    + subst e. destruct He.
+    + exact (IH l1 l2 kind idx items Et).
+  - destruct l1 as [|x l1]; cbn [app] in E; injection E as Ex Et.
+    + inversion Ex; subst. exists dones, tr. auto.
+    + destruct (app_eq_split _ _ _ _ _ Et) as [(a2 & -> & _)|(c' & -> & Hc)].
+      * destruct (done_in_mid _ _ _ _ (proj1 Hd)) as [Hx _]. destruct Hx.
+      * exact (IH c' l2 kind idx items Hc).
+  - destruct l1 as [|x l1]; cbn [app] in E; [discriminate E|]. injection E as Ex Et.
+    destruct l1 as [|y l1]; cbn [app] in Et; injection Et as Ey Et.
+    + inversion Ey; subst. exists dones, (EvAfter kind idx :: tr). auto.
+    + destruct (app_eq_split _ _ _ _ _ Et) as [(a2 & -> & _)|(c' & -> & Hc)].
+      * destruct (done_in_mid _ _ _ _ (proj1 Hd)) as [Hx _]. destruct Hx.
+      * destruct c' as [|z c']; cbn [app] in Hc; [discriminate Hc|]. injection Hc as Ez Hc.
+        exact (IH c' l2 kind idx items Hc).
+Qed.
+
 Theorem run_case_before_flush_after P fuel ps l1 l2 kind idx :
   snd (run_case P fuel ps) = l1 ++ EvBefore kind idx :: l2 ->
   exists items dones l3, l2 = EvFlush kind idx items :: dones ++ EvAfter kind idx :: l3 /\
-                         items <> [] /\ Forall (done_in items) dones.
+                         items <> [] /\ served items dones.
 Proof. apply blocks_before. apply run_case_blocks. Qed.
 
 Theorem run_case_after_closes_block P fuel ps l1 l2 kind idx :
   snd (run_case P fuel ps) = l1 ++ EvAfter kind idx :: l2 ->
   exists items dones l0, l1 = l0 ++ EvBefore kind idx :: EvFlush kind idx items :: dones /\
-                         items <> [] /\ Forall (done_in items) dones.
+                         items <> [] /\ served items dones.
 Proof. apply blocks_after. apply run_case_blocks. Qed.
+
+Theorem run_case_flush_serves_its_items P fuel ps l1 l2 kind idx items :
+  snd (run_case P fuel ps) = l1 ++ EvFlush kind idx items :: l2 ->
+  exists dones l3, l2 = dones ++ l3 /\ served items dones.
+Proof. apply blocks_flush. apply run_case_blocks. Qed.
+
+Lemma cnt_pos h o tr : In (EvItemDone h o) tr -> (1 <= cnt h tr)%nat.
+Proof.
+  intros Hin. unfold cnt. assert (Hf : In (EvItemDone h o) (filter (is_item h) tr)).
+  { apply filter_In. split; [exact Hin|]. cbn. apply fid_eqb_refl. }
+  destruct (filter (is_item h) tr); [destruct Hf|cbn; lia].
+Qed.
+
+(* exactly once, by that flush: an item of a flushed batch has exactly one completion event in the
+   whole trace, and it is among the completions of that flush *)
+Theorem run_case_item_exactly_once P fuel ps l1 l2 kind idx items h :
+  snd (run_case P fuel ps) = l1 ++ EvFlush kind idx items :: l2 -> In h items ->
+  cnt h (snd (run_case P fuel ps)) = 1%nat /\
+  exists dones l3 o, l2 = dones ++ l3 /\ served items dones /\ In (EvItemDone h o) dones.
+Proof.
+  intros E Hin. destruct (run_case_flush_serves_its_items P fuel ps l1 l2 kind idx items E) as (dones & l3 & -> & S).
+  destruct (proj2 S h Hin) as (o & Ho). split.
+  - pose proof (run_case_item_done_at_most_once P fuel ps h) as Hle.
+    assert (Hge : (1 <= cnt h (snd (run_case P fuel ps)))%nat).
+    { apply (cnt_pos h o). rewrite E. apply in_or_app. right. right. apply in_or_app. left. exact Ho. }
+    lia.
+  - exists dones, l3, o. auto.
+Qed.
 
 Theorem run_case_item_done_by_its_flush P fuel ps l1 l2 h o :
   snd (run_case P fuel ps) = l1 ++ EvItemDone h o :: l2 ->
@@ -886,10 +1377,10 @@ Proof.
     [split; [reflexivity|cbn; lia]| | |].
   - destruct IH as [IH1 IH2]. destruct e; cbn [filter is_before is_after is_flush] in *; try destruct He;
       split; assumption.
-  - destruct IH as [IH1 IH2]. destruct (dones_no_marks k items dones Hd) as (N1 & N2 & N3).
+  - destruct IH as [IH1 IH2]. destruct (dones_no_marks k items dones (proj1 Hd)) as (N1 & N2 & N3).
     cbn [filter is_before is_after is_flush]. rewrite !filter_app, N1, N2, N3. cbn [app].
     destruct (key_eqb (k0, i0) k); cbn [length]; split; lia.
-  - destruct IH as [IH1 IH2]. destruct (dones_no_marks k items dones Hd) as (N1 & N2 & N3).
+  - destruct IH as [IH1 IH2]. destruct (dones_no_marks k items dones (proj1 Hd)) as (N1 & N2 & N3).
     cbn [filter is_before is_after is_flush]. rewrite !filter_app, N1, N2, N3. cbn [app filter is_before is_after is_flush].
     destruct (key_eqb (k0, i0) k); cbn [length]; split; lia.
 Qed.
